@@ -272,6 +272,10 @@ ExecStmt(P, u, s, S) ==
                          ELSE LET r == CallUnit(P, Unit(P, s.name), s.args, S) IN
                               IF r.st = "err" THEN Fail(S, r.why) ELSE [S EXCEPT !.env = r.env, !.out = r.out]
     [] s.s = "print"  -> PrintItems(P, s.items, S, 1)
+    \* PRINT of one character literal: the observable is the exact text; the harness encodes a text as
+    \* (code, length) with one fixed function applied both to the literal in the program and to the line
+    \* the executed code printed
+    [] s.s = "prints" -> [S EXCEPT !.out = Append(@, <<"str", s.code, s.len>>)]
     [] s.s = "exit"   -> [S EXCEPT !.st = "exit"]
     [] s.s = "cycle"  -> [S EXCEPT !.st = "cycle"]
     [] s.s = "return" -> [S EXCEPT !.st = "return"]
